@@ -24,6 +24,7 @@ tvars == <<vars, l, qs, ss, scn, fails, viol>>
 
 CONSTANT CheckInvs   \* names of the StoreProps predicates to evaluate after every line
 CONSTANT GProj       \* [group-by name -> [native group key -> projected key]] (C06)
+CONSTANT KeySat      \* [native group key -> set of predicate ids its dimensions satisfy] (C08)
 
 Line == Trace[l]
 IsEv(a) == l <= Len(Trace) /\ Line.a = a /\ l' = l + 1
@@ -177,7 +178,9 @@ TGQueryResult ==
   /\ IsEv("GQueryResult")
   /\ LET q == qs[Line.t]
          B == Shown(IF Line.mem THEN q.mem ELSE q.disk, Line.t, Line.fields, FALSE, q.clock)
-     IN Line.err = "" => GroupedOK(Line.t, B, Line.desc, q.clock, ObsBag(Line.rows))
+         \* a WHERE over dimensions keeps exactly the rows whose key satisfies it (C08)
+         W == [e \in {x \in DOMAIN B : Line.desc.w = "" \/ Line.desc.w \in KeySat[x[1]]} |-> B[e]]
+     IN Line.err = "" => GroupedOK(Line.t, W, Line.desc, q.clock, ObsBag(Line.rows))
   /\ UNCHANGED <<vars, qs, ss, scn, fails>>
 
 \* a query whose result is not bound here (its scan starts are still lines of
